@@ -556,7 +556,7 @@ fn q14_subset(ctx: &Ctx, rng: &mut Rng, n: usize) -> Option<Vec<usize>> {
 }
 
 pub fn c14_random(ctx: &Ctx, rng: &mut Rng, seed: u64, quick: bool) -> History {
-    let subset = if quick { q14_subset(ctx, rng, 1500) } else { None };
+    let subset = if quick { q14_subset(ctx, rng, 2000) } else { None };
     let file = Some(ctx.q14_file.display().to_string());
     let ask = |slot: usize| Op::Ask { slot, phrases: vec![], file: file.clone(), subset: subset.clone(), detail: false };
     let sessions = rng.range(3, 5);
@@ -724,6 +724,36 @@ pub fn c16_random(ctx: &Ctx, rng: &mut Rng, seed: u64, perms: Perms, class: usiz
     History { property: "C16".into(), seed, label, steps }
 }
 
+/// C14 across a change of the shipped data and back: this build, the other-data build, this build
+/// again on one directory (two in-place rebuilds), with reopens and an in-memory session of this build
+/// in between. The sessions of this build must agree among themselves whatever the directory has been
+/// through.
+pub fn c14_two_builds(ctx: &Ctx, rng: &mut Rng, seed: u64, quick: bool) -> History {
+    let subset = if quick { q14_subset(ctx, rng, 2000) } else { None };
+    let file = Some(ctx.q14_file.display().to_string());
+    let ask = |slot: usize| Op::Ask { slot, phrases: vec![], file: file.clone(), subset: subset.clone(), detail: false };
+    let start = |alt: bool, mode: Mode| {
+        let mut s = ctx.session(1, vec![], vec![Op::Open { slot: 0, mode, plan: Plan::default() }, ask(0)]);
+        s.alt = alt;
+        Step::Start { session: s }
+    };
+    let mut steps = vec![start(false, Mode::Disk)];
+    let rounds = rng.range(1, 3);
+    for _ in 0..rounds {
+        steps.push(start(true, Mode::Disk));
+        if rng.chance(1, 2) {
+            steps.push(start(true, Mode::Disk));
+        }
+        steps.push(start(false, Mode::Disk));
+        if rng.chance(1, 2) {
+            steps.push(start(false, Mode::Disk));
+        }
+    }
+    steps.push(start(false, Mode::Mem));
+    steps.push(start(false, Mode::Disk));
+    History { property: "C14".into(), seed, label: format!("this build, the other-data build and back ({rounds}x), reopened, in memory"), steps }
+}
+
 /// C16 on a database opened from one listed prior state of the data directory (the very start that
 /// has to recover it), and again on the following start.
 pub fn c16_state(ctx: &Ctx, tag: &str, st: &StateSpec, perms: Perms, seed: u64) -> History {
@@ -816,6 +846,15 @@ pub fn phrase_pool(ctx: &Ctx) -> PhrasePool {
 }
 
 fn phrase(pool: &PhrasePool, rng: &mut Rng) -> String {
+    if rng.chance(1, 8) {
+        // an underspecified phrase: a fact's words with one of them left out ("population dominican")
+        let p = rng.pick(&pool.own).clone();
+        let words: Vec<&str> = p.split_whitespace().collect();
+        if words.len() >= 3 && !p.starts_with('{') {
+            let drop = rng.below(words.len());
+            return words.iter().enumerate().filter(|(i, _)| *i != drop).map(|(_, w)| *w).collect::<Vec<_>>().join(" ");
+        }
+    }
     match rng.below(10) {
         0 => rng.pick(&pool.missing).clone(),
         1 | 2 => {
@@ -1194,7 +1233,7 @@ pub fn c19_query(pool: &PhrasePool, rng: &mut Rng) -> String {
             5 => {
                 if rng.chance(1, 4) {
                     // phrases the search engine's own query parser rejects: an evaluation error like any other
-                    rng.pick(&["NOT", "pi OR", "speed of light OR", "AND mass", "mass AND", "OR"]).to_string()
+                    rng.pick(&["NOT", "pi OR", "speed of light OR", "AND mass", "mass AND", "OR", "NOT pi", "NOT earth AND NOT moon", "NOT mass", "pi AND NOT pi", "earth OR OR moon"]).to_string()
                 } else {
                     phrase(pool, rng)
                 }
@@ -1226,7 +1265,7 @@ pub fn c19_query(pool: &PhrasePool, rng: &mut Rng) -> String {
                     6 => format!("{}foo", rng.range(1, 9)),
                     7 => format!("2^{}", rng.range(30, 80)),
                     8 => format!("{}/{}decades", rng.range(1, 20), rng.range(2, 9)),
-                    9 if rng.chance(1, 2) => rng.pick(&["NOT", "OR", "AND", "pi", "c"]).to_string(),
+                    9 if rng.chance(1, 2) => rng.pick(&["NOT", "OR", "AND", "pi", "c", "NOT pi", "NOT c"]).to_string(),
                     _ => format!("{}*{}", rng.range(1, 99), rng.range(1, 99)),
                 }
             };
